@@ -830,7 +830,7 @@ def fam_threads(tier, outdir):
     nt, cyc = (8, 40) if tier == "quick" else (16, 300)
     env = dict(os.environ); env["TSAN_OPTIONS"] = "exitcode=66 halt_on_error=0 second_deadlock_stack=1"
     try:
-        r = subprocess.run([exe, str(nt), str(cyc)], capture_output=True, text=True, env=env, timeout=900)
+        r = subprocess.run([exe, str(nt), str(cyc)], capture_output=True, text=True, env=env, timeout=240 if tier == "quick" else 1800)
     except subprocess.TimeoutExpired:
         r = None
     bad = []
